@@ -1236,9 +1236,23 @@ func c07RaceParent(r *Result, rng *rand.Rand, tier string) {
 				}
 			}
 			c07JudgeRaceOutcomes(r, outs, "probe")
+			if note != "" {
+				break // child timed out / crashed: do not burn the budget on repetitions
+			}
 		}
 		if !seen {
-			r.Note("probe %d (%s): listed finding did not reproduce in 8 runs (scheduling dependent)", i, pp.Family+"/"+pp.Handle)
+			r.Note("probe %d (%s): listed finding did not reproduce in this run (scheduling dependent)", i, pp.Family+"/"+pp.Handle)
+		}
+	}
+	// probe for concurrent back-reference writers (C07ScA and C07ScQ both insert into C07ScB): every goroutine first parses every
+	// model of the family (stampede, even seed); three fresh processes because the detector reports a stack pair once per process
+	for attempt := 0; attempt < 3; attempt++ {
+		pp := c07RaceProg{Seed: 10 + int64(attempt)*2, G: 16, Cold: true, Family: "mutual", Handle: "db", Ops: 3}
+		outs, note := c07RunRaceChild([]c07RaceProg{pp}, 60*time.Second)
+		c07JudgeChildEnd(r, []c07RaceProg{pp}, outs, note)
+		c07JudgeRaceOutcomes(r, outs, "probe")
+		if note != "" || len(r.Violations) > 0 {
+			break
 		}
 	}
 	var progs []c07RaceProg
